@@ -245,8 +245,9 @@ namespace cds { namespace intrusive {
                             nodeSize = arrayNodeSize;
                         }
                         else if ( slot.bits() == base_class::flag_array_converting ) {
-                            // the slot is converting to array node right now - skip the node
-                            ++idx;
+                            // the slot is converting to array node right now - wait until the conversion
+                            // is finished: the item in the slot must not be missed
+                            continue;
                         }
                         else {
                             if ( slot.ptr()) {
@@ -256,6 +257,8 @@ namespace cds { namespace intrusive {
                                     m_idx = idx;
                                     return;
                                 }
+                                // the slot has been changed - examine it again
+                                continue;
                             }
                             ++idx;
                         }
@@ -303,8 +306,9 @@ namespace cds { namespace intrusive {
                             idx = nodeSize - 1;
                         }
                         else if ( slot.bits() == base_class::flag_array_converting ) {
-                            // the slot is converting to array node right now - skip the node
-                            --idx;
+                            // the slot is converting to array node right now - wait until the conversion
+                            // is finished: the item in the slot must not be missed
+                            continue;
                         }
                         else {
                             if ( slot.ptr()) {
@@ -314,6 +318,8 @@ namespace cds { namespace intrusive {
                                     m_idx = idx;
                                     return;
                                 }
+                                // the slot has been changed - examine it again
+                                continue;
                             }
                             --idx;
                         }
